@@ -46,13 +46,14 @@ class Boom(Exception):
     pass
 
 
-def all_tables_spec():
+def all_tables_spec(target="x64-elf"):
     """3 code blocks + data; every block-keyed table populated (filled in by decorate())."""
     A = scen.code_block("A", [1, 2], None, f="f", e=True)
     B = scen.code_block("B", [3], ["jcc", "A"], f="f")
-    Cb = scen.code_block("C", [4], ["ret"], f="f")
+    Cb = scen.code_block("C", [4], ["ret"], f="g", e=True)
     Dd = scen.data_block("D", [0xD1, 0xD2])
-    sp = scen.spec_of([A, B, Cb, Dd])
+    E = scen.code_block("E", [5], ["ret"], f="h", e=True)
+    sp = scen.spec_of([A, B, Cb, Dd, E], target=target)
     sp["all_tables"] = True
     return sp
 
@@ -67,8 +68,12 @@ def decorate(w):
     m.aux_data["encodings"].data[w.blocks["D"]] = "string"
     m.aux_data["profile"] = gtirb.AuxData(type_name="mapping<UUID,uint64_t>", data={w.blocks[n]: 7 for n in "ABC"})
     m.aux_data["types"] = gtirb.AuxData(type_name="mapping<UUID,string>", data={w.blocks["D"]: "char"})
-    m.aux_data["elfDynamicInit"] = gtirb.AuxData(type_name="UUID", data=w.blocks["B"])
-    m.aux_data["elfDynamicFini"] = gtirb.AuxData(type_name="UUID", data=w.blocks["C"])
+    if m.file_format == gtirb.Module.FileFormat.ELF:
+        m.aux_data["elfDynamicInit"] = gtirb.AuxData(type_name="UUID", data=w.blocks["B"])
+        m.aux_data["elfDynamicFini"] = gtirb.AuxData(type_name="UUID", data=w.blocks["C"])
+    else:
+        # handlers: one followed by code, one followed by data, one last in the section
+        m.aux_data["peSafeExceptionHandlers"] = gtirb.AuxData(type_name="set<UUID>", data={w.blocks["A"], w.blocks["C"], w.blocks["E"]})
     m.aux_data["comments"].data[gtirb.Offset(w.blocks["A"], 0)] = "a0"
     m.aux_data["comments"].data[gtirb.Offset(w.blocks["C"], 2)] = "c2"
     m.aux_data["padding"].data[gtirb.Offset(w.blocks["D"], 1)] = 1
@@ -89,6 +94,7 @@ def families(tier):
         if tier == "thorough" or name in ("two-procs", "personality"):
             fam.append(("c08", spec, "c08"))
     fam.append(("all-tables", all_tables_spec(), "all"))
+    fam.append(("all-tables-pe", all_tables_spec("x64-pe"), "all"))
     return fam
 
 
@@ -103,7 +109,19 @@ def atoms_for(spec, kind):
     if kind == "c06":
         return c06.atoms_for(spec)
     pats = [[["p", 0]], [["lab", ".Lx"], ["p", 0], ["jcc", ".Lx"]], [["p", 0], ["call", "ext"]]]
-    return scen.atoms_for(spec, pats, data_patches=[{"bytes": [0, 0]}], max_del=2)
+    out = scen.atoms_for(spec, pats, data_patches=[{"bytes": [0, 0]}], max_del=2)
+    if kind == "all":
+        # assembled data patches (they carry encodings / types of their own) inside and around data
+        for s_ in spec["sections"]:
+            for b in s_["blocks"]:
+                if b["k"] == "d":
+                    for k in range(len(b["i"]) + 1):
+                        out.append({"op": "ins", "b": b["n"], "k": k, "p": [["raw", '.string "ab"']]})
+                        out.append({"op": "ins", "b": b["n"], "k": k, "p": [["raw", ".byte 7"]]})
+        # delete_function-style removal of every function
+        for f in sorted({b.get("f") for s_ in spec["sections"] for b in s_["blocks"] if b.get("f")}):
+            pass
+    return out
 
 
 def run_once(spec, mods, fault=None):
@@ -140,10 +158,15 @@ def run_once(spec, mods, fault=None):
     diffs = []
     if fault is None:
         if exc is not None:
-            E, expect = Lg.expected(spec, mods)
             from ..world.run import label_roles
 
-            E.label_roles = label_roles(spec, mods)
+            try:
+                E, expect = Lg.expected(spec, mods)
+                E.label_roles = label_roles(spec, mods)
+            except ValueError:  # raw patch text has no reference expansion: model it by an ordinary patch
+                m2 = [dict(m_, p=[["p", 1]]) if m_["op"] in ("ins", "rep") and isinstance(m_.get("p"), list) and any(t[0] == "raw" for t in m_["p"]) else m_ for m_ in mods]
+                E, expect = Lg.expected(spec, m2)
+                E.label_roles = label_roles(spec, m2)
             if expect is not None and is_documented_refusal(exc):
                 outcome = "refused"
             elif branch_into_data(E) and type(exc).__name__ == "UnsupportedAssemblyError":
